@@ -457,6 +457,19 @@ def operator_table():
         cells.append(Bin("+", S("n="), v))
         if v.get("text") != "9223372036854775808":
             cells.append(Un("-", v))
+    # result TYPE of integer arithmetic, made visible: (l op r) is widened past the 32-bit range by a further + or *;
+    # an int-typed result would wrap (undocumented -> the reference says undef), a long-typed one must not
+    probes_l = {"int": [I(999), I(-999)], "long": [L(999), L(-999), L(7999)]}
+    for op in ["+", "-", "*", "%"]:
+        for lt, rt in [("int", "long"), ("long", "int"), ("long", "long")]:
+            for l, r in itertools.product(probes_l[lt], probes_l[rt][:2] if op != "%" else [x for x in (probes_l[rt][:2] + [I(1000) if rt == "int" else L(1000)])]):
+                e = Bin(op, l, r)
+                cells.append(Bin("+", e, I(2147483647)))
+                cells.append(Bin("*", e, I(3000000)))
+                cells.append(Bin("-", I(-2147483647), e))
+    for v in probes_l["long"]:
+        cells.append(Bin("*", Un("-", v), I(3000000)))
+        cells.append(Bin("*", Cast("long", I(999)), I(3000000)))
     # operands through variables too (same cells, values read from typed locals)
     progs = []
 
